@@ -312,7 +312,7 @@ func runSched(o checks.Opts) *report.Report {
 		e := &explore.Explorer{Bound: b, Shard: o.Shard, Shards: o.Shards, ShardLvl: 2}
 		if !o.Quick() {
 			// the thorough tier is capped per scenario and shard (reported, exhaustive=false when hit)
-			e.MaxExec = 6000000
+			e.MaxExec = 1500000
 		}
 		st := e.Explore(body(sc))
 		if st.Capped {
